@@ -97,7 +97,7 @@ Mean(v) ==
             items |-> CASE v.kind = "Set" -> SetOf(ms)             \* generated sets hold integer literals only
                         [] v.kind = "Catalog" -> CatAll(ms)
                         [] v.kind = "Map" -> ByKey(CatAll(ms))     \* generated maps have integer keys only
-                        [] OTHER -> ms]
+                        [] OTHER -> IF ms # <<>> /\ \A j \in 1..Len(ms) : ms[j].k = "assoc" THEN CatAll(ms) ELSE ms]
 
 ----------------------------------------------------------------------------
 (* The generated documents (C11) *)
@@ -149,16 +149,23 @@ LitContexts ==
 \* long documents: more tokens than the scanner queue (16) and deeper than the push-back stack (4)
 Long == {Coll(kind, lay, [j \in 1..n |-> Lit(AnInt)]) : kind \in {"List", "Stack", "Queue"}, lay \in {"inline", "multi"}, n \in {9, 17, 40}}
 
+\* associations as items of a value kind: a repeated key keeps its first position and its last value there too
+AssocItems == {Coll(kind, lay, <<Assoc(Lit(p[1]), Lit(AnInt)), Assoc(Lit(p[2]), Lit(AStr)), Assoc(Lit(p[1]), Lit(AStr))>>) :
+                  kind \in {"List", "Array", "Stack", "Queue"}, lay \in {"inline", "multi"},
+                  p \in {q \in TwoInts \X TwoInts : q[1] # q[2]}} \cup
+              {Coll("List", "inline", <<Coll(kind, "inline", <<Assoc(Lit(AStr), Lit(AnInt)), Assoc(Lit(AStr), Lit(AStr))>>)>>) : kind \in {"List", "Array"}}
+
 \* the same sub-collection twice (C10 also builds these with one shared object)
 Twice == {Coll(kind, lay, <<x, x>>) : kind \in {"List", "Array", "Stack"}, lay \in {"inline", "multi"}, x \in Reps} \cup
          {Coll("Catalog", "multi", <<Assoc(Lit(AnInt), x), Assoc(Lit(AStr), x)>>) : x \in Reps}
 
-Docs == Flat \cup Nested(Depth) \cup LitContexts \cup Long \cup Twice
+Docs == Flat \cup Nested(Depth) \cup LitContexts \cup Long \cup Twice \cup AssocItems
 
 ----------------------------------------------------------------------------
 (* Abstract token sequences for the totality of the parser (C12) *)
 
-Alphabet == {"[", "]", "(", ")", ":", ",", "\n", "List", "Catalog", "7", "\"s\"", "#"}
+\* {{hex}} stands for the rune with that code (expanded by the harness): columns count runes, not bytes
+Alphabet == {"[", "]", "(", ")", ":", ",", "\n", "List", "Catalog", "7", "\"s{{e9}}{{263a}}\"", "#"}
 TokSeqs == UNION {[1..n -> Alphabet] : n \in 1..L}
 
 \* item kinds that do not match the type context
@@ -202,7 +209,7 @@ AtomValues ==
         kind \in {"Catalog"}, a \in AtomLeaves \ {AKey}} \cup
     {[k |-> "coll", kind |-> "List", items |-> <<[k |-> "coll", kind |-> "Set", items |-> <<a>>], a>>] : a \in AtomLeaves}
 
-PurityNames == {"small", "nested", "fail0", "fail2"}
+PurityNames == {"small", "nested", "deep7", "fail0", "fail2"}
 PuritySeqs == UNION {[1..n -> PurityNames] : n \in 1..L}
 
 Recs == IF MODE \in {"check", "check12", "check10p"} THEN ndJsonDeserialize(IOEnv.TRACE) ELSE <<>>
